@@ -108,7 +108,12 @@ func govcFill(v reflect.Value, rnd *rand.Rand, depth int) {
 		if v.Kind() == reflect.Int8 {
 			pool = []int64{0, 1, -1}
 		}
-		v.SetInt(pool[rnd.Intn(len(pool))])
+		if depth == 0 && v.Kind() != reflect.Int8 && rnd.Intn(2) == 0 {
+			// top-level parameters are usually selectors: spread them
+			v.SetInt(rnd.Int63n(4000) - 1000)
+		} else {
+			v.SetInt(pool[rnd.Intn(len(pool))])
+		}
 	case reflect.Uint, reflect.Uint8, reflect.Uint16, reflect.Uint32, reflect.Uint64:
 		v.SetUint(uint64(rnd.Intn(5)))
 	case reflect.Float32, reflect.Float64:
